@@ -24,7 +24,7 @@ func init() {
 	core.Register(&core.Prop{
 		ID:    "C19",
 		Level: "exploration",
-		Rule: "Plus nested files named .fsutil-metadata (new, changed, stale) and a stale non-empty directory at the listing's name in merge mode and behind a Filter (failing transfers there are violations). source trees {random, fan-out of 300-1500 entries with long names so the listing spans several 32KiB chunks, synthetic trees with a single stat larger than a chunk} x selectors {none, all, files only, dirs only, random nested subset closed under hard-link sources, by-name} x sources that contain an entry named .fsutil-metadata (file, symlink, empty dir) before and between selected files x prior destinations {empty, mutated copy, one holding a listing file / a symlink / a directory with that name}; real Send + real Receive(MetadataOnly); the listing file is decoded as little-endian length-prefixed records and compared with the STATs on the wire, dest minus the listing is compared with the projection of the source, REQ ids and notifications are checked. " +
+		Rule: "Plus sources without entries, or with nothing but an entry of the listing name (1 case of 12): the listing is written anew, empty. Plus nested files named .fsutil-metadata (new, changed, stale) and a stale non-empty directory at the listing's name in merge mode and behind a Filter (failing transfers there are violations). source trees {random, fan-out of 300-1500 entries with long names so the listing spans several 32KiB chunks, synthetic trees with a single stat larger than a chunk} x selectors {none, all, files only, dirs only, random nested subset closed under hard-link sources, by-name} x sources that contain an entry named .fsutil-metadata (file, symlink, empty dir) before and between selected files x prior destinations {empty, mutated copy, one holding a listing file / a symlink / a directory with that name}; real Send + real Receive(MetadataOnly); the listing file is decoded as little-endian length-prefixed records and compared with the STATs on the wire, dest minus the listing is compared with the projection of the source, REQ ids and notifications are checked. " +
 			"non-trivial = at least one selected regular file below a non-selected directory, or a multi-chunk listing, or a source entry with the listing name; distinct by (tree, selector, prior) fingerprint",
 		Assumptions: []string{"root", "selectors select the link source of every hard link they select", "a directory named .fsutil-metadata in the source is empty, except in the cases that exhibit known finding K7"},
 		Cases: func(tier string) int {
@@ -79,9 +79,17 @@ func c19Run(c *core.Ctx) *core.Result {
 			src.Put(big)
 		}
 	}
+	// a source without entries (or, with the block below, one whose only
+	// entry has the listing's name): nothing is recorded, and the listing is
+	// still written anew - empty - over whatever an earlier receive left
+	if er := core.NewRand(core.Mix(c.Seed, "C19-empty-source", c.Index)); er.P(1, 12) {
+		src = &tree.Tree{}
+		shape = "empty"
+		r.Count("sources_without_entries", 1)
+	}
 	// names, link targets and xattr keys that are not valid UTF-8 (legal on
 	// Linux): every announced entry is recorded, whatever its bytes
-	if R.P(1, 4) {
+	if R.P(1, 4) && shape != "empty" {
 		src.Put(tree.Entry{Path: "caf\xe9.txt", Type: tree.File, Perm: 0644, Mtime: 1e18, Data: []byte("latin-1 name")})
 		src.Put(tree.Entry{Path: "\xfe-dir", Type: tree.Dir, Perm: 0755, Mtime: 1e18})
 		src.Put(tree.Entry{Path: "\xfe-dir/\xff", Type: tree.Symlink, Perm: 0777, Mtime: 1e18, Target: "\xc3\x28/\xff"})
